@@ -85,3 +85,67 @@ def install_cdist(F, *modules):
 
 def install_log(F):
     npproxy.NP.stubs["log"] = log_sym
+
+
+# ---------------------------------------------------------------- optimal_rotation_matrix as an opaque, memoised contract
+def _key(a):
+    out = []
+    for v in np.asarray(a, dtype=object).ravel():
+        if isinstance(v, Sym):
+            out.append((tuple(sorted(v.n.t.items())), None if v.d is None else tuple(sorted(v.d.t.items()))))
+        else:
+            out.append(("c", core.lift0(v)))
+    return tuple(out)
+
+
+def install_rotation_oracle(F, log, optimal=False):
+    """Replace menpo's optimal_rotation_matrix by an interception wrapper.
+    symbolic mode: returns an ARBITRARY orthogonal matrix (2-D: point on the unit circle, reflection allowed
+    only when allow_mirror) that is a function of its arguments (memoised on the argument terms);
+    concrete mode: logs the arguments and calls the real function."""
+    import menpo.transform.homogeneous.rotation as hr
+
+    real = hr.optimal_rotation_matrix
+
+    def wrapper(source, target, allow_mirror=False):
+        log.append({"source": source.points, "target": target.points, "allow_mirror": allow_mirror})
+        if not F.sym:
+            return real(source, target, allow_mirror=allow_mirror)
+        n = source.points.shape[1]
+        if n != 2:
+            raise core.Unsupported("rotation oracle only in 2-D")
+        c = core.ctx()
+        key = ("orm", _key(source.points), _key(target.points), bool(allow_mirror))
+        if key in c.memo:
+            return c.memo[key].copy()
+        cc, ss = c.fresh_real("orm_c"), c.fresh_real("orm_s")
+        c.defined.append(cc * cc + ss * ss == 1)
+        refl = bool(SymB(c.fresh_bool("orm_refl"))) if allow_mirror else False
+        e = -1 if refl else 1
+        R = np.array([[Sym.var(cc), Sym.var(ss) * (-e)], [Sym.var(ss), Sym.var(cc) * e]], dtype=object)
+        if optimal and not allow_mirror:
+            # contract proved by harness c07.rotation2d(reduced): the result satisfies the closed-form
+            # optimality conditions for the correlation matrix target^T source
+            C = core.O(target.points).T.dot(core.O(source.points))
+            A = C[0, 0] + C[1, 1]
+            B = C[1, 0] - C[0, 1]
+            c.defined.append(core.eqz(R[0, 0] * B - R[1, 0] * A, 0))
+            c.defined.append(Sym.of(R[0, 0] * A + R[1, 0] * B).sign_term("ge"))
+        c.memo[key] = R
+        return R.copy()
+
+    F.patch(hr, "optimal_rotation_matrix", wrapper)
+    return wrapper
+
+
+def install_svd2_memo(F):
+    """svd2 memoised on the argument terms (equal computations give identical terms)"""
+    def svd_m(a, **k):
+        c = core.ctx()
+        key = ("svd2", _key(a), tuple(sorted(k.items())))
+        if key not in c.memo:
+            c.memo[key] = svd2(a, **k)
+        r = c.memo[key]
+        return tuple(x.copy() for x in r) if isinstance(r, tuple) else r.copy()
+
+    npproxy.NP.stubs["linalg.svd"] = svd_m
